@@ -116,6 +116,7 @@ package jsonschema
 
 //@ contract hashValue$write(v)
 //@   requires new(h) && shaped(v)
+//@   ensures[C12] scalar: plainJ(v) && !isJArr(jv(v)) && !isJObj(jv(v)) ==> HashStream[h] == feedJ(old(HashStream[h]), jv(v))
 
 // ---------------------------------------------------------------------------
 // annotations.go
